@@ -8,6 +8,24 @@ props = [json.loads(l) for l in open(os.path.join(HERE, "properties.jsonl"))]
 TRUST = "TLC 1.8 and the CommunityModules Json reader; the harness projection/wrappers (harness/project.py, record.py); CPython as executor of the library."
 
 CHECKS = {
+    "C01": dict(cat="model_checking", ref="DESIGN 8/C01",
+                text="Native TLC search (Walk.tla) of the product original graph x restructured hierarchy x control-variable valuation for every recorded stage state of every behaviour, in by-name and region-wise mode, to fix-point: all decision sequences of unbounded length per instance; instances: all closed CFGs <=4 nodes, 5-node ones modulo relabelling, seeded random larger ones, std-lib bytecode CFGs.",
+                technique="TLC state-space exploration of a TLA+ product machine (Walk.tla) built from states recorded from the implementation"),
+    "C02": dict(cat="model_checking", ref="DESIGN 8/C02",
+                text="The real pipeline is run (each stage separately, with a time cap) on every closed CFG with <=5 nodes, on seeded random larger ones and on std-lib bytecode CFGs; TLC (Accept.tla) judges every recorded outcome (NeverFails, Terminates, Completes), checks every graph against the TLA+ domain definition and certifies that the <=4-node (thorough: <=5-node) inputs are exactly ClosedCFG(N).",
+                technique="TLC evaluation of the trace-end invariant on recorded behaviours plus TLC certification of the exhaustive input domain defined in TLA+ (Accept.tla, Graph!ClosedCFG)"),
+    "C06": dict(cat="model_checking", ref="DESIGN 8/C06",
+                text="TablesAgree evaluated by TLC on every recorded stage state; unset / out-of-range / non-successor / stale-latch control variables searched by TLC over the whole product state space of Walk.tla (the valuation is part of the state, so all reachable valuations on all paths are covered per instance).",
+                technique="TLC exploration of Walk.tla (valuation in the state) plus Props!TablesAgree on recorded states"),
+    "C13": dict(cat="model_checking", ref="DESIGN 8/C13",
+                text="Every query of the library is run on every digraph of the exhaustive domains Q(1,3), Q(2,3), Q(3,2) (thorough: Q(3,3)) and on random larger graphs with external targets and declared back edges, for every subset / pair argument; TLC (Queries.tla) compares each recorded result with the path/set-based definition and certifies that the recorded domain is the whole TLA+ set.",
+                technique="TLA+ definitions (Queries.tla, Graph.tla) as oracle, evaluated by TLC on results recorded from the implementation; exhaustive small scope"),
+    "C14": dict(cat="model_checking", ref="DESIGN 8/C14",
+                text="TLC explores all histories of edit operations (Edit.tla: Impl transcription as step, EditPost contract on every transition) over every level and every ordered (P,S) choice from seed states recorded from the code; every generated state is replayed into real SCFG objects and compared (0 drift on the unchanged tree); transitions the code does not reproduce, and every edit-primitive call made by the real pipeline on the restructure domain, are judged by TLC against the contract on the real pre/post states (EditTrace.tla).",
+                technique="TLC model checking of edit histories (Impl => Post), replay of TLC behaviours into the implementation, trace validation of recorded primitive calls"),
+    "C16": dict(cat="model_checking", ref="DESIGN 8/C16",
+                text="After every stage of every behaviour, list(scfg) and the concealed view of the root and of every sub-region at every depth are recorded and checked by TLC against the contract IterOK / ViewOK (Props.tla).",
+                technique="TLA+ contract predicates evaluated by TLC on observations recorded from the implementation (trace validation, exhaustive small scope)"),
     "C03": dict(cat="model_checking", ref="DESIGN 8/C03",
                 text="TLC evaluates the Structured clauses (Props.tla) on the final state of every behaviour recorded from the real code over all closed CFGs with <=4 nodes, 5-node ones modulo relabelling, seeded random larger ones and std-lib bytecode CFGs; small-scope exhaustive plus per-instance checking, not a proof.",
                 technique="TLA+ contract predicates (Props!Structured) evaluated by TLC on states recorded from the implementation (trace validation, exhaustive small scope)"),
